@@ -230,6 +230,15 @@ func (te *TypeEnv) zeroOfSort(sort string) string {
 
 // HeapName returns the base name of the heap array for element type t.
 func (te *TypeEnv) HeapKey(t types.Type) string {
+	t = types.Unalias(t)
+	if b, ok := t.(*types.Basic); ok {
+		switch b.Kind() {
+		case types.Uint8:
+			return "uint8" // byte
+		case types.Int32:
+			return "int32" // rune
+		}
+	}
 	return shortTypeName(t)
 }
 
